@@ -287,6 +287,47 @@ def _raw_read_sectors():
                       requires=lambda m: m.hyps + [sector0 >= m.sector_offset, count0 >= 0], post=post)
 
 
+class RawInitModel(Model):
+    def __init__(self):
+        super().__init__()
+        self.hyps = []
+        self.fsize, self.farr = self.file_field("fh", "fh")
+        self.globals["SECTOR_SIZE"] = IntV(z3.IntVal(512))
+        self.globals["io"] = ObjV("io")
+        self.fields["io.SEEK_END"] = IntV(z3.IntVal(2))
+        self.fields["io.SEEK_SET"] = IntV(z3.IntVal(0))
+        self.hyps += [self.fsize >= 0]
+
+
+def _raw_init():
+    """RawDisk.__init__: a flat extent covers `size` bytes when the descriptor states a size (FLAT/VMFS lines always do: sectors * 512),
+    else the whole file; sector_count = size div 512; offset / sector_offset / start_sector are kept as given."""
+    size_none = z3.Bool("size_is_None")
+    size0, off0, so0, ss0 = z3.Ints("size0 offset0 sector_offset0 start_sector0")
+
+    def post(eng, st, rv):
+        m = eng.model
+        a = st.attrs
+        want = z3.If(z3.Or(size_none, size0 == 0), m.fsize, size0)
+        def iv(k):
+            v = a.get(k)
+            return eng.as_int(v, st, None) if isinstance(v, (IntV, BoolV, OptV)) else None
+        goals = []
+        for k, w in (("self.size", want), ("self.offset", off0), ("self.sector_offset", so0), ("self.start_sector", ss0)):
+            goals.append((k.replace("self.", "") + "_stored", iv(k) == w if iv(k) is not None else z3.BoolVal(False)))
+        sc = iv("self.sector_count")
+        q, r, fact = ediv(want, z3.IntVal(512))
+        st.hyps.append(fact)
+        goals.append(("sector_count_is_size_div_512", sc == q if sc is not None else z3.BoolVal(False)))
+        goals.append(("handle_kept", z3.BoolVal(isinstance(a.get("self.fh"), FileV) and a["self.fh"].name == "fh")))
+        return goals
+
+    return FnContract(FILE, "RawDisk.__init__", ["C02", "C10", "C14"], RawInitModel,
+                      params=lambda m: {"self": ObjV("self"), "fh": FileV("fh"), "size": OptV(size_none, IntV(size0)), "offset": IntV(off0), "sector_offset": IntV(so0), "start_sector": IntV(ss0)},
+                      requires=lambda m: m.hyps + [size0 >= 0, off0 >= 0, so0 >= 0, ss0 >= 0], post=post,
+                      note="size None / 0 / given; file size symbolic")
+
+
 # ------------------------------------------------------------------------------------------------ VMDK extent walk
 class VmdkModel(Model):
     """VMDK over a list of extents (struct-of-arrays): extent i covers sectors [OFF(i), OFF(i) + CNT(i)); each extent's
@@ -686,7 +727,7 @@ def trusted(pid):
 
 def contracts(repo):
     return [_get_runs("functional"), _read_sectors(repo), _raw_read_sectors(), _vmdk_read_sectors(), _vmdk_read(), _get_runs("termination"), _vmdk_read_sectors_termination(),
-            _lookup_grain(False, repo), _lookup_grain(True, repo), _lookup_grain_table(False), _lookup_grain_table(True), _read_compressed_grain(True), _read_compressed_grain(False)]
+            _lookup_grain(False, repo), _lookup_grain(True, repo), _lookup_grain_table(False), _lookup_grain_table(True), _read_compressed_grain(True), _read_compressed_grain(False), _raw_init()]
 
 
 
